@@ -69,3 +69,8 @@ RC.append(("np.linalg.eigh: the rule skips its eigenvector term when the eigenve
            [("C07", "eigh", "*", "gauss-newton-hessian-wrong", "observable:~(fun|proj)")]))
 RC.append(("np.linalg.solve with batched matrix and broadcasting vector right-hand side (see C01 entry): wrong Gauss-Newton Hessian",
            [("C07", "solve", "*", "gauss-newton-hessian-wrong", "batch_broadcast:True,rhs_vector:True")]))
+RC.append(("np.einsum where a LABELLED size-1 dimension broadcasts against a larger dimension with the same label: the gradient of the larger operand is not broadcast back up "
+           "(and comes out with the size-1 shape)",
+           [(p, "einsum", "rev", k, "size1_label_broadcast:True") for p, k in (("C01", "wrong-shape"), ("C05", "wrong-structure"), ("C09", "wrong-shape"), ("C01", "wrong-value"))]))
+RC.append(("ArrayBox.flatten is an alias of ravel: under differentiation x.flatten() returns a view of its input where ndarray.flatten() returns a copy",
+           [("C06", "ravel", "*", "result-aliases-input", "form:x.fl")]))
